@@ -1,5 +1,757 @@
-//! C09 — not built yet.
+//! C09 — interpreter totality: any input ends in success or a located error, no crash. DESIGN.md §3 C09.
+//! Engine: BEX (all short token strings) + DEV (every single deviation of seed programs), each program
+//! in the interaction modes errorstop / scroll / nonstop / batch.
+//!
+//! Every sweep runs in worker subprocesses (`c09 --worker <family> <lo> <hi> <progress-file>`): stdin
+//! closed, address space limited, big stack, a progress file naming the case in flight. A worker that
+//! aborts (stack overflow, allocation failure) or stops making progress is attributed to that case,
+//! which becomes a `fail`; the rest of the chunk is re-run by fresh workers.
+
+use serde_json::{json, Value};
+use std::collections::BTreeMap;
+use std::os::unix::fs::FileExt;
+use std::sync::atomic::{AtomicU64, Ordering};
+use std::time::{Duration, Instant};
+use vcore::{Acc, Ctx, Level};
+use vtex::texlang::token;
+
+// ------------------------------------------------------------------ vocabulary
+
+/// Full vocabulary: every installed primitive (the harness removes \sleep) + the tokens of DESIGN §3 C09.
+fn full_vocab() -> Vec<String> {
+    let mut names: Vec<String> = vtex::builtins().keys().map(|k| format!("\\{k}")).collect();
+    names.sort();
+    let extra = [
+        "\\par", "\\undefined", "\\a", "~", "{", "}", "#", "$", "&", "^", "_", "%", " ", "\n", "=", "-", "+", "`", "'", "\"", ".", ":", "<", "a", "f", "p", "t", "é", "by", "to", "pt", "fil", "plus", "true", "0", "1", "15", "16", "255", "256", "32767", "32768",
+        "55296", "1114111", "1114112", "2147483647", "2147483648", "-1", "^^M", "^^@", "\u{7f}", "1pt", "#1",
+    ];
+    names.extend(extra.iter().map(|s| s.to_string()));
+    names
+}
+/// Core: the tokens that steer scanning, grouping, expansion, conditionals, registers and files.
+fn core_vocab() -> Vec<String> {
+    [
+        "\\count", "\\dimen", "\\skip", "\\toks", "\\the", "\\def", "\\let", "\\global", "\\advance", "\\multiply", "\\divide", "\\catcode", "\\chardef", "\\countdef", "\\ifnum", "\\ifcase", "\\else", "\\fi", "\\or", "\\expandafter", "\\noexpand",
+        "\\read", "\\input", "\\openin", "\\ifeof", "\\endinput", "\\a", "{", "}", "#", "1", "-", "=", " ", "2147483647", "f", "by", "to", "pt", "é",
+    ]
+    .iter()
+    .map(|s| s.to_string())
+    .collect()
+}
+fn mini_vocab() -> Vec<String> {
+    ["\\the", "\\def", "\\a", "{", "}", "#", "1", "-", "2147483647", "é", "\\fi", "\\read"].iter().map(|s| s.to_string()).collect()
+}
+fn append_tok(src: &mut String, t: &str) {
+    src.push_str(t);
+    if t.starts_with('\\') && t.len() > 2 && t.chars().nth(1).map(|c| c.is_ascii_alphabetic()).unwrap_or(false) {
+        src.push(' ');
+    }
+}
+const MODES: [&str; 4] = ["", "\\scrollmode ", "\\nonstopmode ", "\\batchmode "];
+const MODE_NAMES: [&str; 4] = ["errorstop", "scroll", "nonstop", "batch"];
+
+// ------------------------------------------------------------------ seeds
+
+fn seeds() -> Vec<String> {
+    let mut v: Vec<String> = vtex::texlang_stdlib::ErrorCase::all_error_cases().into_iter().map(|c| c.source_code.to_string()).collect();
+    // valid idioms
+    for s in [
+        r"\def\a#1.#2{[#2#1]}\a xy.{z}w",
+        r"\def\a#1#2{#2#1}\a{x}{y}\a x{yz}",
+        r"\ifnum 1<2 a\ifcase 1 b\or c\or d\else e\fi\else f\fi g",
+        r"\ifodd 3 \iftrue a\else b\fi\fi\iffalse x\ifnum 1=1 y\fi\else z\fi",
+        "\\openin 1 f \\read 1 to \\a \\a \\ifeof 1 e\\else \\read 1 to \\b \\b\\fi \\closein 1 ",
+        r"\input f \relax",
+        "a\\input g b",
+        r"\count 1=5 \advance\count 1 by 2 \multiply\count 1 by -3 \divide\count 1 by 2 \the\count 1",
+        r"\dimen 1=1.5pt \advance\dimen 1 by 2\dimen 1 \skip 1=\dimen 1 plus 1fil minus 2pt \the\skip 1",
+        r"\countdef\c=3 \c=7 {\global\c=8 \c=9 }\the\c",
+        r"\toks 1={a#b}\toksdef\t=1 \the\t \toks 2=\t",
+        r"\catcode `\<=1 \catcode `\>=2 \def\a<x>\a",
+        r"\chardef\c=65 \mathchardef\m=7 \c\the\m \count 1=\c",
+        r"\expandafter\def\expandafter\a\expandafter{\the\count 1}\a \noexpand\a",
+        r"\let\b=\def \b\c{x}\c \let\d=a \d",
+        r"{\def\a{x}\gdef\b{y}}\b \a",
+        r"\long\outer\def\a#1{#1}\a{\par}",
+        r"\endlinechar=-1 \year=\month \the\time \jobname",
+        r"\newInt\n \n=3 \newIntArray\m 4 \m 2=5 \the\m 2 \the\n",
+        r"\tracingmacros=2 \def\a#1{#1}\a b",
+        r"\globaldefs=1 {\count 1=2 }\the\count 1 \globaldefs=-1 \global\count 1=3 ",
+        r"\dimen 0=\count 1 sp \dimen 2=-\dimen 0 \multiply\dimen 0 by \count 1 ",
+        // values at the edge of the 32-bit range (-2^31 is reachable by \advance only)
+        r"\count 1=-2147483647 \advance\count 1 by -1 \dimen 0=\count 1 sp",
+        r"\count 1=-2147483647 \advance\count 1 by -1 \skip 0=\count 1 pt",
+        r"\count 1=-2147483647 \advance\count 1 by -1 \dimen 0=1pt \multiply\dimen 0 by \count 1 ",
+        r"\dimen 1=-1073741823sp \advance\dimen 1 by -1073741823sp \advance\dimen 1 by -2sp \dimen 0=-\dimen 1 ",
+        r"\dimen 1=-1073741823sp \advance\dimen 1 by -1073741823sp \advance\dimen 1 by -2sp \multiply\dimen 1 by 1 ",
+        r"\skip 1=-1073741823sp \advance\skip 1 by -1073741823sp \advance\skip 1 by -2sp \skip 0=-\skip 1 ",
+        r"\count 2=2147483647 \dimen 0=.5\count 2 ",
+        r"\count 1=-1073741824 \multiply\count 1 by 2 \divide\count 1 by -1 ",
+        r"\newIntArray\m 4 \let\b=\m \b 2=5 \the\b 2 ",
+    ] {
+        v.push(s.to_string());
+    }
+    v
+}
+/// Lexical chunks of a seed: control word (+ the blanks it swallows), control symbol, digit string, or one character.
+fn chunks(src: &str) -> Vec<String> {
+    let cs: Vec<char> = src.chars().collect();
+    let mut out = vec![];
+    let mut i = 0;
+    while i < cs.len() {
+        let start = i;
+        if cs[i] == '\\' {
+            i += 1;
+            if i < cs.len() && cs[i].is_ascii_alphabetic() {
+                while i < cs.len() && cs[i].is_ascii_alphabetic() {
+                    i += 1;
+                }
+                while i < cs.len() && cs[i] == ' ' {
+                    i += 1;
+                }
+            } else if i < cs.len() {
+                i += 1;
+            }
+        } else if cs[i].is_ascii_digit() {
+            while i < cs.len() && cs[i].is_ascii_digit() {
+                i += 1;
+            }
+        } else {
+            i += 1;
+        }
+        out.push(cs[start..i].iter().collect());
+    }
+    out
+}
+fn join(chs: &[String]) -> String {
+    let mut s = String::new();
+    for c in chs {
+        if c.starts_with('\\') && c.len() > 2 && !c.ends_with(' ') {
+            append_tok(&mut s, c);
+        } else {
+            s.push_str(c);
+        }
+    }
+    s
+}
+
+// ------------------------------------------------------------------ families (index -> program)
+
+struct Families {
+    full: Vec<String>,
+    core: Vec<String>,
+    mini: Vec<String>,
+    seeds: Vec<Vec<String>>,
+    /// cumulative number of single deviations per seed, for the full / core substitution vocabulary
+    dev1_cum: Vec<u64>,
+    dev1_vocab: Vec<String>,
+    dev2_cum: Vec<u64>,
+    short_full_len: u32,
+    short_core_len: u32,
+}
+impl Families {
+    fn new(quick: bool) -> Families {
+        let full = full_vocab();
+        let core = core_vocab();
+        let mini = mini_vocab();
+        let seeds: Vec<Vec<String>> = seeds().iter().map(|s| chunks(s)).collect();
+        let dev1_vocab = if quick { core.clone() } else { full.clone() };
+        let mut dev1_cum = vec![0u64];
+        let mut dev2_cum = vec![0u64];
+        for s in &seeds {
+            let n = s.len() as u64;
+            let k = dev1_vocab.len() as u64;
+            dev1_cum.push(dev1_cum.last().unwrap() + 1 + n + n * k + (n + 1) * k);
+            let d = Self::n_dev(n, mini.len() as u64);
+            dev2_cum.push(dev2_cum.last().unwrap() + d * d);
+        }
+        Families { full, core, mini, seeds, dev1_cum, dev1_vocab, dev2_cum, short_full_len: if quick { 2 } else { 3 }, short_core_len: if quick { 3 } else { 4 } }
+    }
+    fn n_dev(n: u64, k: u64) -> u64 {
+        n + n * k + (n + 1) * k
+    }
+    /// d-th single deviation of a chunk list: deletions, then substitutions, then insertions.
+    fn deviate(chs: &[String], vocab: &[String], d: u64) -> Option<Vec<String>> {
+        let n = chs.len() as u64;
+        let k = vocab.len() as u64;
+        let mut out = chs.to_vec();
+        if d < n {
+            out.remove(d as usize);
+        } else if d < n + n * k {
+            let e = d - n;
+            out[(e / k) as usize] = vocab[(e % k) as usize].clone();
+        } else if d < n + n * k + (n + 1) * k {
+            let e = d - n - n * k;
+            out.insert((e / k) as usize, vocab[(e % k) as usize].clone());
+        } else {
+            return None;
+        }
+        Some(out)
+    }
+    fn count(&self, family: &str) -> u64 {
+        match family {
+            "short-full" => vcore::strings_upto(self.full.len() as u64, self.short_full_len) * 4,
+            "short-core" => vcore::strings_upto(self.core.len() as u64, self.short_core_len) * 4,
+            "seed-dev1" => self.dev1_cum.last().unwrap() * 4,
+            "seed-dev2" => *self.dev2_cum.last().unwrap(),
+            _ => 0,
+        }
+    }
+    /// (mode index, program without the mode prefix)
+    fn program(&self, family: &str, idx: u64) -> (usize, String) {
+        match family {
+            "short-full" | "short-core" => {
+                let v = if family == "short-full" { &self.full } else { &self.core };
+                let mode = (idx % 4) as usize;
+                let digits = vcore::nth_string(v.len() as u64, idx / 4);
+                let mut src = String::new();
+                for d in digits {
+                    append_tok(&mut src, &v[d as usize]);
+                }
+                (mode, src)
+            }
+            "seed-dev1" => {
+                let mode = (idx % 4) as usize;
+                let j = idx / 4;
+                let s = match self.dev1_cum.binary_search(&j) {
+                    Ok(i) => i,
+                    Err(i) => i - 1,
+                };
+                let d = j - self.dev1_cum[s];
+                let chs = if d == 0 { self.seeds[s].clone() } else { Self::deviate(&self.seeds[s], &self.dev1_vocab, d - 1).expect("deviation index") };
+                (mode, join(&chs))
+            }
+            "seed-dev2" => {
+                let s = match self.dev2_cum.binary_search(&idx) {
+                    Ok(i) => i,
+                    Err(i) => i - 1,
+                };
+                let d = idx - self.dev2_cum[s];
+                let nd = Self::n_dev(self.seeds[s].len() as u64, self.mini.len() as u64);
+                let first = Self::deviate(&self.seeds[s], &self.mini, d / nd).expect("dev2 first");
+                // the second deviation is applied to the result of the first (indices beyond its range: none)
+                let chs = Self::deviate(&first, &self.mini, d % nd).unwrap_or(first);
+                (1, join(&chs))
+            }
+            _ => (0, String::new()),
+        }
+    }
+}
+
+// ------------------------------------------------------------------ one case (worker side)
+
+/// Panic sites that are planned to stay (DESIGN §4.1, D8): (finding id, file suffix, text of the source line).
+const KNOWN_SITES: [(&str, &str, &str); 4] = [
+    ("D8-the-non-variable", "texlang-stdlib/src/the.rs", "todo!(\"should return an error\")"),
+    ("D8-disabled-terminal-read", "texlang-stdlib/src/errormode.rs", "todo!()"),
+    ("D8-file-area", "texlang/src/parse/filelocation.rs", "panic!(\"Texlang does not have support for file areas yet\");"),
+    ("D8-font-variable-as-number", "texlang/src/parse/integer.rs", "todo!(\"scan a font into an int?\");"),
+];
+
+fn setup_vm() -> Box<vtex::Vm> {
+    let mut vm = vtex::new_vm();
+    vm.state.env.step_budget.set(3000);
+    vm.state.env.err_budget.set(100);
+    {
+        let fs = vm.state.env.fs.borrow();
+        fs.add("f.tex", "a{\nb}\n\\x");
+        fs.add("g.tex", "é\\endinput z\n}");
+        fs.add("a.tex", "\\input a");
+    }
+    for (name, f) in [("fa", 1u32), ("fb", 2u32)] {
+        if let Some(cs) = vm.cs_name_interner().get(name) {
+            vm.state.env.font_names.borrow_mut().insert(f, token::CommandRef::ControlSequence(cs));
+        }
+    }
+    vtex::set_terminal(&mut vm, &["t{", "\\fi é"]);
+    vm
+}
+
+struct Verdict {
+    class: String,
+    /// (expected, observed, note)
+    fail: Option<(String, String, String)>,
+    known: Option<String>,
+    cutoff: bool,
+    reached_primitive: bool,
+    errors_recovered: u64,
+    nonascii_error: bool,
+}
+
+fn run_case(mode: usize, body: &str) -> Verdict {
+    let src = format!("{}{}", MODES[mode], body);
+    let mut v = Verdict { class: String::new(), fail: None, known: None, cutoff: false, reached_primitive: body.contains('\\'), errors_recovered: 0, nonascii_error: false };
+    let errs = std::cell::Cell::new(0u64);
+    let r = vcore::catch(|| {
+        let mut vm = setup_vm();
+        let _ = vm.push_source("t.tex", src.clone());
+        let r = vm.run::<vtex::H>();
+        errs.set(vm.state.env.errs.get());
+        let outcome: Result<(), (String, String)> = match r {
+            Ok(()) => Ok(()),
+            Err(e) => {
+                let title = e.error.title();
+                // the error must render, to non-empty text, without panicking (a panic here unwinds to `catch`)
+                let text = format!("{e}");
+                let located = match e.error.kind() {
+                    vtex::texlang::error::Kind::Token(t) => e.token_traces.get(&t).map(|tr| tr.line_number >= 1).unwrap_or(false),
+                    vtex::texlang::error::Kind::EndOfInput => e.end_of_input_trace.as_ref().map(|tr| tr.line_number >= 1).unwrap_or(false),
+                    vtex::texlang::error::Kind::FailedPrecondition => e.error.source_code_trace_override().is_some() || e.stack_trace.last().map(|s| s.trace.line_number >= 1).unwrap_or(false),
+                };
+                Err((title, if text.trim().is_empty() { "EMPTY-RENDERING".into() } else if !located { "NOT-LOCATED".into() } else { String::new() }))
+            }
+        };
+        // afterwards: the execution stack is balanced, and the VM is reusable (unread input of the first
+        // program is dropped, a second program runs)
+        let depth = vm.generate_stack_trace().len();
+        vm.clear_sources();
+        vm.state.env.out.borrow_mut().clear();
+        vm.state.env.steps.set(0);
+        vm.state.env.errs.set(0);
+        let _ = vm.push_source("u.tex", "x");
+        let again = vm.run::<vtex::H>().map_err(|e| (e.error.title(), depth));
+        let again = if depth != 0 { Err(("<unbalanced>".to_string(), depth)) } else { again };
+        let out2 = vm.state.env.out.borrow().concat();
+        (outcome, again, out2)
+    });
+    v.errors_recovered = errs.get();
+    match r {
+        Err(p) if p.cutoff => {
+            v.cutoff = true;
+            v.class = "budget cut-off".into();
+        }
+        Err(p) => {
+            let line = p.source_line();
+            let rel = p.rel_file();
+            v.class = format!("panic {}", p.site());
+            if let Some((id, _, _)) = KNOWN_SITES.iter().find(|(_, f, l)| rel.ends_with(f) && line.contains(l)) {
+                v.known = Some(id.to_string());
+            } else {
+                v.fail = Some(("success or a located error".into(), p.describe(), "panic".into()));
+            }
+            v.nonascii_error = !body.is_ascii();
+        }
+        Ok((outcome, again, out2)) => {
+            match &outcome {
+                Ok(()) => v.class = "ok".into(),
+                Err((title, defect)) => {
+                    v.class = format!("error: {}", generalize(title));
+                    v.nonascii_error = !body.is_ascii();
+                    if !defect.is_empty() {
+                        v.fail = Some(("an error that carries a source location and renders to non-empty text".into(), format!("{defect}: {title}"), "error is not located / does not render".into()));
+                    }
+                }
+            }
+            if v.fail.is_none() {
+                // a fatal error in the first run may leave groups/conditionals open; the second run
+                // must still execute (x is typeset or a located error is returned, no panic, no hang)
+                match again {
+                    Ok(()) if out2.contains('x') => {}
+                    Ok(()) => v.class.push_str(" / second run: x not typeset"),
+                    Err((t, d)) if t == "<unbalanced>" => {
+                        v.fail = Some(("an empty execution stack after the run".into(), format!("{d} element(s) left on the execution stack"), "the execution stack was left unbalanced".into()));
+                    }
+                    Err(_) => v.class.push_str(" / second run: error"),
+                }
+            }
+        }
+    }
+    v
+}
+/// Error titles with their variable parts removed (keeps the number of outcome classes bounded).
+fn generalize(title: &str) -> String {
+    let mut out = String::new();
+    let mut prev_digit = false;
+    for c in title.chars().take(90) {
+        if c.is_ascii_digit() {
+            if !prev_digit {
+                out.push('N');
+            }
+            prev_digit = true;
+        } else {
+            prev_digit = false;
+            out.push(if c.is_ascii() { c } else { '?' });
+        }
+    }
+    out
+}
+
+// ------------------------------------------------------------------ worker
+
+#[derive(Default)]
+struct WAcc {
+    evals: u64,
+    nontrivial: u64,
+    cutoffs: u64,
+    fail_count: u64,
+    classes: BTreeMap<String, u64>,
+    counters: BTreeMap<String, u64>,
+    fails: Vec<Value>,
+    known: BTreeMap<String, (u64, u64, Value)>,
+    witness: BTreeMap<String, String>,
+}
+impl WAcc {
+    fn to_json(&self) -> Value {
+        json!({"evals": self.evals, "nontrivial": self.nontrivial, "cutoffs": self.cutoffs, "fail_count": self.fail_count, "classes": self.classes, "counters": self.counters, "fails": self.fails, "witness": self.witness,
+            "known": self.known.iter().map(|(k, v)| (k.clone(), json!([v.0, v.1, v.2]))).collect::<serde_json::Map<String, Value>>()})
+    }
+}
+fn case_json(family: &str, idx: u64, mode: usize, body: &str) -> Value {
+    json!({"family": family, "idx": idx, "mode": MODE_NAMES[mode], "program": format!("{}{}", MODES[mode], body)})
+}
+
+fn worker(family: &str, lo: u64, hi: u64, progress: &str, quick: bool) -> ! {
+    vcore::pan::install_hook();
+    let fams = Families::new(quick);
+    let pf = std::fs::OpenOptions::new().write(true).create(true).truncate(false).open(progress).expect("progress file");
+    let family = family.to_string();
+    let result = format!("{progress}.out");
+    let h = std::thread::Builder::new()
+        .stack_size(512 << 20)
+        .spawn(move || {
+            let mut w = WAcc::default();
+            for idx in lo..hi {
+                let _ = pf.write_at(&idx.to_le_bytes(), 0);
+                let (mode, body) = fams.program(&family, idx);
+                let v = run_case(mode, &body);
+                w.evals += 1;
+                if v.reached_primitive {
+                    w.nontrivial += 1;
+                }
+                *w.classes.entry(v.class.clone()).or_insert(0) += 1;
+                if v.cutoff {
+                    w.cutoffs += 1;
+                }
+                if v.errors_recovered > 0 {
+                    *w.counters.entry(format!("errors_recovered_{}", MODE_NAMES[mode])).or_insert(0) += 1;
+                }
+                if v.nonascii_error {
+                    *w.counters.entry("errors_on_non_ascii_lines".into()).or_insert(0) += 1;
+                }
+                if let Some(id) = v.known {
+                    let e = w.known.entry(id).or_insert((0, idx, case_json(&family, idx, mode, &body)));
+                    e.0 += 1;
+                } else if let Some((exp, obs, note)) = v.fail {
+                    w.fail_count += 1;
+                    if w.fails.len() < 6 {
+                        w.fails.push(json!({"idx": idx, "case": case_json(&family, idx, mode, &body), "expected": exp, "observed": obs, "note": note}));
+                    }
+                    // the class carries its first (smallest-index) witness of this chunk
+                    let k = format!("FAIL {}", vcore::clip(&obs_site(&obs), 160));
+                    *w.classes.entry(k.clone()).or_insert(0) += 1;
+                    w.witness.entry(k).or_insert_with(|| format!("{}{}", MODES[mode], body));
+                }
+            }
+            // the result goes to a file: the subject itself prints to stdout (\tracingmacros uses println!)
+            std::fs::write(&result, serde_json::to_string(&w.to_json()).unwrap()).expect("write result");
+            let _ = pf.write_at(&u64::MAX.to_le_bytes(), 0);
+        })
+        .expect("spawn");
+    let ok = h.join().is_ok();
+    std::process::exit(if ok { 0 } else { 3 })
+}
+fn obs_site(obs: &str) -> String {
+    // "panic at <site>: msg [source line: ...]" -> "<site> [source line]"
+    match (obs.find("panic at "), obs.find("[source line:")) {
+        (Some(a), Some(b)) => {
+            let site = obs[a + 9..].split(": ").next().unwrap_or("");
+            format!("{site} {}", &obs[b..])
+        }
+        _ => obs.to_string(),
+    }
+}
+
+// ------------------------------------------------------------------ parent
+
+static SEQ: AtomicU64 = AtomicU64::new(0);
+
+enum ChunkEnd {
+    Done(Value),
+    /// the worker died or hung while running this index
+    Died(u64, String),
+    Machinery(String),
+}
+
+fn run_worker(family: &str, lo: u64, hi: u64, quick: bool, stall_s: u64) -> ChunkEnd {
+    let exe = std::env::current_exe().expect("current_exe");
+    let dir = std::env::temp_dir().join(format!("c09-{}", std::process::id()));
+    let _ = std::fs::create_dir_all(&dir);
+    let pfile = dir.join(format!("p{}", SEQ.fetch_add(1, Ordering::Relaxed)));
+    let _ = std::fs::write(&pfile, (u64::MAX - 1).to_le_bytes());
+    // address space limit: an allocation failure must abort the worker, not exhaust the machine
+    let script = "ulimit -v 3145728; exec \"$0\" \"$@\"";
+    let mut child = match std::process::Command::new("/bin/sh")
+        .arg("-c")
+        .arg(script)
+        .arg(&exe)
+        .args(["--worker", family, &lo.to_string(), &hi.to_string(), pfile.to_str().unwrap(), "--tier", if quick { "quick" } else { "thorough" }])
+        .stdin(std::process::Stdio::null())
+        .stdout(std::process::Stdio::null())
+        .stderr(std::process::Stdio::null())
+        .spawn()
+    {
+        Ok(c) => c,
+        Err(e) => return ChunkEnd::Machinery(format!("cannot spawn worker: {e}")),
+    };
+    let rfile = dir.join(format!("{}.out", pfile.file_name().unwrap().to_string_lossy()));
+    let read_progress = || -> u64 {
+        let mut b = [0u8; 8];
+        match std::fs::File::open(&pfile).and_then(|f| f.read_at(&mut b, 0)) {
+            Ok(8) => u64::from_le_bytes(b),
+            _ => u64::MAX - 1,
+        }
+    };
+    let mut last = (read_progress(), Instant::now());
+    let status = loop {
+        match child.try_wait() {
+            Ok(Some(st)) => break Some(st),
+            Ok(None) => {}
+            Err(_) => break None,
+        }
+        std::thread::sleep(Duration::from_millis(20));
+        let p = read_progress();
+        if p != last.0 {
+            last = (p, Instant::now());
+        } else if last.1.elapsed() > Duration::from_secs(stall_s) {
+            let _ = child.kill();
+            let _ = child.wait();
+            let _ = std::fs::remove_file(&pfile);
+            let _ = std::fs::remove_file(&rfile);
+            return if p >= u64::MAX - 1 { ChunkEnd::Machinery(format!("worker {family} {lo}..{hi} made no progress at all for {stall_s} s")) } else { ChunkEnd::Died(p, format!("no progress for {stall_s} s of wall clock on this case (hang); worker killed")) };
+        }
+    };
+    let out = std::fs::read_to_string(&rfile).unwrap_or_default();
+    let p = read_progress();
+    let _ = std::fs::remove_file(&pfile);
+    let _ = std::fs::remove_file(&rfile);
+    match status {
+        Some(st) if st.success() => match serde_json::from_str::<Value>(out.trim()) {
+            Ok(v) => ChunkEnd::Done(v),
+            Err(e) => ChunkEnd::Machinery(format!("worker {family} {lo}..{hi}: unreadable result ({e})")),
+        },
+        Some(st) => {
+            if p >= u64::MAX - 1 {
+                ChunkEnd::Machinery(format!("worker {family} {lo}..{hi} ended with {st} outside a case"))
+            } else {
+                use std::os::unix::process::ExitStatusExt;
+                let how = match st.signal() {
+                    Some(6) => "SIGABRT (abort: stack overflow guard, allocation failure or double panic)".to_string(),
+                    Some(11) => "SIGSEGV (stack overflow)".to_string(),
+                    Some(9) => "SIGKILL".to_string(),
+                    Some(s) => format!("signal {s}"),
+                    None => format!("{st}"),
+                };
+                ChunkEnd::Died(p, format!("the process died with {how} while running this case"))
+            }
+        }
+        None => ChunkEnd::Machinery("cannot wait for worker".into()),
+    }
+}
+
+fn leak(s: &str) -> &'static str {
+    static NAMES: std::sync::Mutex<BTreeMap<String, &'static str>> = std::sync::Mutex::new(BTreeMap::new());
+    let mut g = NAMES.lock().unwrap();
+    if let Some(x) = g.get(s) {
+        return x;
+    }
+    let l: &'static str = Box::leak(s.to_string().into_boxed_str());
+    g.insert(s.to_string(), l);
+    l
+}
+static WITNESS: std::sync::Mutex<BTreeMap<String, String>> = std::sync::Mutex::new(BTreeMap::new());
+fn merge_worker(acc: &mut Acc, v: &Value) {
+    if let Some(m) = v["witness"].as_object() {
+        let mut g = WITNESS.lock().unwrap();
+        for (k, w) in m {
+            let w = w.as_str().unwrap_or("").to_string();
+            match g.get(k) {
+                Some(old) if old.len() <= w.len() => {}
+                _ => {
+                    g.insert(k.clone(), w);
+                }
+            }
+        }
+    }
+    acc.evals += v["evals"].as_u64().unwrap_or(0);
+    acc.nontrivial += v["nontrivial"].as_u64().unwrap_or(0);
+    acc.cutoffs += v["cutoffs"].as_u64().unwrap_or(0);
+    if let Some(m) = v["classes"].as_object() {
+        for (k, n) in m {
+            for _ in 0..1 {
+                // Acc::class counts one by one; add the bulk directly
+                let n = n.as_u64().unwrap_or(0);
+                if n > 0 {
+                    acc.class(k);
+                    if let Some(e) = acc.classes.get_mut(k) {
+                        *e += n - 1;
+                    } else if let Some(e) = acc.classes.get_mut("<more classes>") {
+                        *e += n - 1;
+                    }
+                }
+            }
+        }
+    }
+    if let Some(m) = v["counters"].as_object() {
+        for (k, n) in m {
+            acc.count_n(leak(k), n.as_u64().unwrap_or(0));
+        }
+    }
+    let kept = v["fails"].as_array().map(|a| a.len()).unwrap_or(0) as u64;
+    if let Some(a) = v["fails"].as_array() {
+        for f in a {
+            acc.fail(f["idx"].as_u64().unwrap_or(0), f["case"].clone(), f["expected"].as_str().unwrap_or(""), f["observed"].as_str().unwrap_or(""), f["note"].as_str().unwrap_or(""));
+        }
+    }
+    acc.fail_count += v["fail_count"].as_u64().unwrap_or(0).saturating_sub(kept);
+    if let Some(m) = v["known"].as_object() {
+        for (k, e) in m {
+            let (n, idx, w) = (e[0].as_u64().unwrap_or(0), e[1].as_u64().unwrap_or(0), e[2].clone());
+            acc.known(k, idx, || w.clone());
+            if let Some(x) = acc.known.get_mut(k) {
+                x.0 += n - 1;
+            }
+        }
+    }
+}
+
+/// Run one family: chunks of the index space are handed to worker processes, `threads` at a time.
+fn run_family(ctx: &mut Ctx, fams: &Families, family: &str, bounds: &str) {
+    if !ctx.wants(family) {
+        return;
+    }
+    let n = fams.count(family);
+    let t0 = Instant::now();
+    let deadline = Instant::now() + Duration::from_secs_f64(ctx.remaining_s());
+    let threads = ctx.threads.max(1);
+    let chunk = (n / (threads as u64 * 6)).clamp(200, 40_000);
+    let nchunks = n.div_ceil(chunk);
+    let next = AtomicU64::new(0);
+    let done = AtomicU64::new(0);
+    let quick = ctx.quick();
+    let stall_s: u64 = std::env::var("C09_STALL_S").ok().and_then(|s| s.parse().ok()).unwrap_or(60);
+    let machinery: std::sync::Mutex<Vec<String>> = std::sync::Mutex::new(vec![]);
+    let mut accs: Vec<Acc> = vec![];
+    std::thread::scope(|s| {
+        let mut hs = vec![];
+        for _ in 0..threads.min(nchunks as usize) {
+            hs.push(s.spawn(|| {
+                let mut acc = Acc::default();
+                loop {
+                    if Instant::now() >= deadline {
+                        break;
+                    }
+                    let c = next.fetch_add(1, Ordering::Relaxed);
+                    if c >= nchunks {
+                        break;
+                    }
+                    // work list of sub-ranges of this chunk (a death splits the range around the case)
+                    let mut todo = vec![(c * chunk, ((c + 1) * chunk).min(n))];
+                    while let Some((lo, hi)) = todo.pop() {
+                        if lo >= hi {
+                            continue;
+                        }
+                        match run_worker(family, lo, hi, quick, stall_s) {
+                            ChunkEnd::Done(v) => merge_worker(&mut acc, &v),
+                            ChunkEnd::Died(p, how) => {
+                                let (mode, body) = fams.program(family, p);
+                                acc.eval();
+                                acc.class("process death or hang");
+                                acc.fail(p, case_json(family, p, mode, &body), "success or a located error", how, "abort / hang attributed through the worker's progress file");
+                                todo.push((p + 1, hi));
+                                todo.push((lo, p));
+                            }
+                            ChunkEnd::Machinery(m) => machinery.lock().unwrap().push(m),
+                        }
+                    }
+                    done.fetch_add(1, Ordering::Relaxed);
+                }
+                acc
+            }));
+        }
+        for h in hs {
+            accs.push(h.join().expect("driver thread"));
+        }
+    });
+    let mut total = Acc::default();
+    for a in accs {
+        total.merge(a);
+    }
+    for m in machinery.into_inner().unwrap() {
+        ctx.machinery_error(m);
+    }
+    if std::env::var_os("C09_CLASSES").is_some() {
+        for (k, n) in &total.classes {
+            if k.starts_with("FAIL") || k.starts_with("panic") || k.starts_with("process") {
+                eprintln!("CLASS {n:8} {k}{}", WITNESS.lock().unwrap().get(k).map(|w| format!("\n         shortest: {w:?}")).unwrap_or_default());
+            }
+        }
+        for (k, (n, _, w)) in &total.known {
+            eprintln!("KNOWN {n:8} {k} first: {}", w["program"]);
+        }
+    }
+    let d = done.load(Ordering::Relaxed);
+    let exhaustive = d == nchunks;
+    let cap = if exhaustive { None } else { Some(format!("wall cap hit: {d} of {nchunks} chunks of the index space 0..{n} were completed")) };
+    ctx.push_family(family, bounds, exhaustive, cap, t0.elapsed().as_secs_f64(), total);
+}
+
 fn main() {
-    eprintln!("c09: check not built yet");
-    std::process::exit(2);
+    let args: Vec<String> = std::env::args().collect();
+    if let Some(i) = args.iter().position(|a| a == "--worker") {
+        let quick = !args.iter().any(|a| a == "thorough");
+        worker(&args[i + 1], args[i + 2].parse().unwrap(), args[i + 3].parse().unwrap(), &args[i + 4], quick);
+    }
+    let mut ctx = Ctx::new("C09", Level::Exploration);
+    ctx.assume("budgets: 3000 expansions and 100 recoverable errors per run; a run that exhausts the step budget is counted as a cut-off and not judged");
+    ctx.assume("environment owned by the harness: in-memory files f.tex, g.tex, a.tex (self-including), a scripted terminal with two lines, output and logs to a sink, fixed clock; undefined control sequences are recorded by the handlers instead of ending the run");
+    ctx.assume("worker processes run with a 3 GiB address-space limit: an allocation beyond it is an allocation failure (abort), which is reported against the case");
+    ctx.assume("reusability after a run: VM::generate_stack_trace() is empty (execution stack balanced), and after clear_sources() a second program `x` runs without panic or hang (state left by the first program - category codes, an open conditional - may legitimately change what it does)");
+    let fams = Families::new(ctx.quick());
+
+    if let Some((_f, case)) = ctx.replay_case() {
+        vcore::pan::install_hook();
+        let mut acc = Acc::default();
+        // a replay file stores the whole program; the mode prefix is part of it
+        let prog = case["program"].as_str().unwrap_or("").to_string();
+        let mode = MODE_NAMES.iter().position(|m| Some(*m) == case["mode"].as_str()).unwrap_or(0);
+        let body = prog.strip_prefix(MODES[mode]).unwrap_or(&prog).to_string();
+        // run in a worker so that an abort is observed, not suffered
+        let fam = case["family"].as_str().unwrap_or("").to_string();
+        let idx = case["idx"].as_u64().unwrap_or(0);
+        if fams.count(&fam) > idx && fams.program(&fam, idx) == (mode, body.clone()) {
+            match run_worker(&fam, idx, idx + 1, ctx.quick(), 60) {
+                ChunkEnd::Done(v) => merge_worker(&mut acc, &v),
+                ChunkEnd::Died(p, how) => acc.fail(p, case.clone(), "success or a located error", how, "abort / hang"),
+                ChunkEnd::Machinery(m) => {
+                    eprintln!("{m}");
+                    std::process::exit(2)
+                }
+            }
+        } else {
+            // program text not addressable in this tier's index space: run it in-process
+            let v = run_case(mode, &body);
+            acc.eval();
+            if let Some(id) = v.known {
+                acc.known(&id, 0, || case.clone());
+            } else if let Some((e, o, n)) = v.fail {
+                acc.fail(0, case.clone(), e, o, n);
+            }
+        }
+        ctx.finish_replay(acc);
+    }
+
+    let (nf, nc) = (fams.full.len(), fams.core.len());
+    run_family(&mut ctx, &fams, "short-full", &format!("every string of <= {} tokens over the full vocabulary ({nf} tokens: every installed primitive, braces, specials, numbers at every limit, non-ASCII) x 4 interaction modes", fams.short_full_len));
+    run_family(&mut ctx, &fams, "short-core", &format!("every string of <= {} tokens over a {nc}-token core (registers, \\the, definitions, conditionals, \\expandafter, \\read/\\input) x 4 interaction modes", fams.short_core_len));
+    run_family(&mut ctx, &fams, "seed-dev1", &format!("{} seeds (the repository's all_error_cases + 31 idioms), unchanged and with every single deletion / substitution / insertion of a token from a {}-token vocabulary at every position, x 4 interaction modes", fams.seeds.len(), fams.dev1_vocab.len()));
+    if !ctx.quick() {
+        run_family(&mut ctx, &fams, "seed-dev2", &format!("the same seeds with every pair of deviations over a {}-token vocabulary, scroll mode", fams.mini.len()));
+    }
+    let _ = std::fs::remove_dir_all(std::env::temp_dir().join(format!("c09-{}", std::process::id())));
+
+    ctx.require("errors_recovered_scroll", "a run in scroll mode recovered from at least one error");
+    ctx.require("errors_recovered_nonstop", "a run in nonstop mode recovered from at least one error");
+    ctx.require("errors_recovered_batch", "a run in batch mode recovered from at least one error");
+    ctx.require("errors_on_non_ascii_lines", "an error was raised on a line that contains a non-ASCII character");
+    ctx.finish("every token string within the stated length over the stated vocabulary, and every single deviation of every seed, each in the stated interaction modes (non-trivial = the program contains a control sequence); outcome classes are error titles with numbers generalised");
 }
